@@ -53,6 +53,9 @@ func StartTLS(cfg *tls.Config) StreamFeature {
 			d := xml.NewTokenDecoder(r)
 
 			// If no TLSConfig was specified, use a default config.
+			// Do not assign it to cfg: the feature may be reused for other sessions
+			// with a different local address.
+			cfg := cfg
 			if cfg == nil {
 				cfg = &tls.Config{
 					ServerName: session.LocalAddr().Domain().String(),
